@@ -116,6 +116,18 @@ Theorem C11_composition_is_conjunction : forall ps t via,
 Proof. exact composition_is_conjunction. Qed.
 Print Assumptions C11_composition_is_conjunction.
 
+(* a user-defined policy that FAULTS (panics) on a hop permits nothing on that hop, wherever it
+   stands in the list: the hop is not taken, and a chain under such a list sends at most k requests *)
+Theorem C11_fault_is_no_permission : forall ps k t via,
+  In (PFault k) ps -> length via = k -> all_permit ps t via = false.
+Proof. exact fault_is_no_permission. Qed.
+Print Assumptions C11_fault_is_no_permission.
+
+Theorem C11_fault_bounds_chain : forall ps init hs targets k,
+  In (PFault k) ps -> 1 <= k -> length (fst (run_chain ps init hs targets)) <= k.
+Proof. exact fault_bounds_chain. Qed.
+Print Assumptions C11_fault_bounds_chain.
+
 (* for every chain: what reaches the wire is the initial request plus a prefix of the
    targets; on refusal the refused target and everything after it receive nothing *)
 Theorem C11_refused_host_gets_nothing : forall ps init hs targets via strip,
